@@ -262,6 +262,8 @@ func (rt *runtime) cmplEvaluateNodeDotExpression(node *nodeDotExpression) Value 
 
 func (rt *runtime) cmplEvaluateNodeNewExpression(node *nodeNewExpression) Value {
 	callee := rt.cmplEvaluateNodeExpression(node.callee)
+	// 11.2.2: GetValue(ref) (and its ReferenceError) comes before the arguments are evaluated
+	vl := callee.resolve()
 
 	argumentList := []Value{}
 	for _, argumentNode := range node.argumentList {
@@ -290,7 +292,6 @@ func (rt *runtime) cmplEvaluateNodeNewExpression(node *nodeNewExpression) Value 
 		atv = at(callee.idx)
 	}
 
-	vl := callee.resolve()
 	if !vl.IsFunction() {
 		if name == "" {
 			// FIXME Maybe typeof?
